@@ -1120,7 +1120,13 @@ def iter_timestamped_records(record: Record) -> Iterator[Record]:
     original = record
     for field in dt_fields:
         # always read the timestamp from the original record, ``record`` is re-bound below
-        ts_record = TimestampRecord(getattr(original, field.name), field.name)
+        ts_record = TimestampRecord(
+            getattr(original, field.name),
+            field.name,
+            _source=original._source,
+            _classification=original._classification,
+            _generated=original._generated,
+        )
         # we extend ``ts_record`` with original ``record`` so TSRecord info goes first.
         record = extend_record(ts_record, [record], name=record_name)
         yield record
